@@ -43,6 +43,7 @@ type Run struct {
 	Trace  []string       // operation-level trace
 	States map[string]bool
 	NonTrivial bool
+	Aborted    bool // the simulation stopped (deadlock, busy-wait, step cap): nothing after it is meaningful
 	sigExtra   uint64
 	start0     time.Time
 	SimTime    time.Duration
@@ -50,7 +51,7 @@ type Run struct {
 }
 
 func (r *Run) Violate(class, sig, format string, args ...any) {
-	if len(r.Viol) >= 5 {
+	if len(r.Viol) >= 5 || r.Aborted {
 		return
 	}
 	r.Viol = append(r.Viol, Violation{class, sig, fmt.Sprintf(format, args...)})
@@ -107,8 +108,11 @@ func (r *Run) Simulate(main func()) {
 			}
 		}
 	}
+	r.Sim.OnFail = func() { r.Aborted = true }
 	r.Sim.Run(main)
 	if r.Sim.Failure != "" {
+		r.Aborted = false
+		defer func() { r.Aborted = true }()
 		switch r.Sim.Failure {
 		case "deadlock":
 			r.Violate("deadlock", "deadlock", "all goroutines blocked: %s", r.Sim.FailInfo)
@@ -145,6 +149,7 @@ type Result struct {
 	Trace      []string          `json:"trace,omitempty"`
 	Diverged   string            `json:"diverged,omitempty"`
 	Panic      string            `json:"panic,omitempty"`
+	Aborted    bool              `json:"aborted,omitempty"`
 	Streams    map[string][]tape.Choice `json:"-"`
 	Program    []json.RawMessage `json:"-"`
 }
@@ -222,6 +227,7 @@ func RunOne(t *testing.T, h *Harness, tp *tape.Tape, cfg map[string]string, prog
 		})
 	}()
 	res.Viol = r.Viol
+	res.Aborted = r.Aborted
 	res.Stats = r.Stats
 	for s := range r.States {
 		res.States = append(res.States, s)
@@ -296,7 +302,7 @@ func Main(t *testing.T, h *Harness) {
 		f, err := os.OpenFile(p, os.O_CREATE|os.O_WRONLY|os.O_APPEND, 0o644)
 		if err != nil {
 			fmt.Fprintln(os.Stderr, "DSIM-MACHINERY-ERROR:", err)
-			os.Exit(2)
+			os.Exit(12)
 		}
 		defer f.Close()
 		out = f
@@ -358,17 +364,24 @@ func Main(t *testing.T, h *Harness) {
 				// state of the process is suspect after a panic inside a bubble
 				os.Exit(4)
 			}
+			if res.Aborted {
+				// goroutines of a stopped simulation were released to run natively: retire the process
+				os.Exit(5)
+			}
 		}
 	case "replay":
 		f, err := tape.ReadFile(os.Getenv("DSIM_FILE"))
 		if err != nil {
 			fmt.Fprintln(os.Stderr, "DSIM-MACHINERY-ERROR:", err)
-			os.Exit(2)
+			os.Exit(12)
 		}
 		if f.Config != nil {
 			cfg = f.Config
 		}
 		res := guarded(f.Seed, func() *Result {
+			if f.Fresh {
+				return RunOne(t, h, tape.New(f.Seed), cfg, nil, 200)
+			}
 			return RunOne(t, h, tape.Replay(f.Seed, f.Streams, os.Getenv("DSIM_STRICT") == "1"), cfg, progOf(f), 200)
 		})
 		emit(res)
@@ -376,7 +389,7 @@ func Main(t *testing.T, h *Harness) {
 		f, err := tape.ReadFile(os.Getenv("DSIM_FILE"))
 		if err != nil {
 			fmt.Fprintln(os.Stderr, "DSIM-MACHINERY-ERROR:", err)
-			os.Exit(2)
+			os.Exit(12)
 		}
 		if f.Config != nil {
 			cfg = f.Config
@@ -388,7 +401,7 @@ func Main(t *testing.T, h *Harness) {
 		mf := Minimise(t, h, f, cfg, budget)
 		if err := mf.Write(os.Getenv("DSIM_MINOUT")); err != nil {
 			fmt.Fprintln(os.Stderr, "DSIM-MACHINERY-ERROR:", err)
-			os.Exit(2)
+			os.Exit(12)
 		}
 	}
 }
